@@ -553,12 +553,26 @@ func (w *world) respond(tree int) {
 	w.emit(fmt.Sprintf("PeerAnswer %d", tree), fmt.Sprintf("RecvResp %d", tree), "Step 0")
 }
 
-func (w *world) localTree(tree int) {
+// localTree makes the tree known on the server: through a bare RegisterTree, or (run = true) by
+// creating a local run on it - CreateProtocol registers the instance and then the tree. Either
+// way the overlay must start a flush of the messages parked for the tree.
+func (w *world) localTree(tree int, run bool) {
 	w.armSpare(tree)
-	w.ovR.RegisterTree(w.trees[tree])
+	if run {
+		if _, err := w.ovR.CreateProtocol(protoName, w.trees[tree], onet.NilServiceID); err != nil {
+			w.failed = "local run: " + err.Error()
+			return
+		}
+	} else {
+		w.ovR.RegisterTree(w.trees[tree])
+	}
 	g := w.spare[tree]
-	if !g.WaitHit(wait) {
-		w.failed = "no flush after RegisterTree"
+	if !g.WaitHit(3 * wait) {
+		// no flush was started: the action is recorded (the model starts its flush), the scenario
+		// goes on without a flush thread, and what stays parked is judged at the end
+		w.spare[tree] = nil
+		g.Release()
+		w.emit(fmt.Sprintf("LocalTree %d", tree))
 		return
 	}
 	w.spare[tree] = nil
@@ -646,7 +660,9 @@ func (w *world) exec(o op) {
 	case "respond":
 		w.respond(o.Tree)
 	case "localtree":
-		w.localTree(o.Tree)
+		w.localTree(o.Tree, false)
+	case "localrun":
+		w.localTree(o.Tree, true)
 	case "finish":
 		w.finish(tokKey{o.Tree, o.Run})
 	}
@@ -711,7 +727,7 @@ func runTrace(in input) lib.Case {
 		case c == 8 && len(w.reqs) > 0:
 			o = op{Op: "respond", Tree: w.reqs[rng.Intn(len(w.reqs))]}
 		case c == 9 && rng.Intn(4) == 0:
-			o = op{Op: "localtree", Tree: rng.Intn(2)}
+			o = op{Op: []string{"localtree", "localrun"}[rng.Intn(2)], Tree: rng.Intn(2)}
 		case c == 9 && rng.Intn(3) == 0:
 			o = op{Op: "finish", Tree: rng.Intn(2), Run: 1 + rng.Intn(2)}
 		default:
@@ -1240,6 +1256,7 @@ func m(tree, run int) op  { return op{Op: "msg", Tree: tree, Run: run} }
 func s(pos int) op        { return op{Op: "step", Pos: pos} }
 func resp(tree int) op    { return op{Op: "respond", Tree: tree} }
 func ltree(tree int) op   { return op{Op: "localtree", Tree: tree} }
+func lrun(tree int) op    { return op{Op: "localrun", Tree: tree} }
 func fin(tree, run int) op { return op{Op: "finish", Tree: tree, Run: run} }
 
 func templates() []input {
@@ -1253,6 +1270,8 @@ func templates() []input {
 		{Kind: "trace", Name: "finished-instance", Ops: []op{ltree(0), s(0), s(0), m(0, 1), s(0), fin(0, 1), m(0, 1), s(0), m(0, 2), s(0)}},
 		{Kind: "trace", Name: "two-trees", Ops: []op{m(0, 1), m(1, 1), s(0), s(1), s(0), s(1), s(0), s(1), s(0), s(0), resp(1), resp(0)}},
 		{Kind: "trace", Name: "local-tree-flush", Ops: []op{m(0, 1), s(0), s(0), ltree(0), s(1), s(0)}},
+		// a local run on the tree (CreateProtocol) while a message for it is parked and its request is out
+		{Kind: "trace", Name: "local-run-flush", Ops: []op{m(0, 1), s(0), s(0), s(0), s(0), lrun(0), s(0), s(0), resp(0)}},
 		{Kind: "trace", Name: "double-request", Ops: []op{m(0, 1), m(0, 2), s(0), s(1), s(0), s(1), s(0), s(1), s(0), s(0), resp(0), resp(0)}},
 		// two first messages of one run handed over concurrently (second arrives while the first is in the constructor)
 		{Kind: "trace", Name: "concurrent-first", Ops: []op{ltree(0), s(0), s(0), m(0, 1), m(0, 1), {Op: "race2", Pos: 0, Run: 1}, m(0, 1), s(0)}},
